@@ -24,6 +24,7 @@ sys.path.insert(0, HERE)
 from mutants.catalogue import MUTANTS  # noqa: E402
 
 PY = "/venv/bin/python"
+RESULTS = {}
 
 
 def make_tree(m):
@@ -100,11 +101,14 @@ def main():
         d = make_tree(m)
         try:
             line = "%-34s" % m["name"]
+            miss = []
             if a.tests:
                 miss = run_tests(d)
                 line += " suite:%s" % ("survives" if not miss else "KILLED(%d)" % len(miss))
             props = a.props.split(",") if a.props else m["expect"]
             res = run_checks(d, props, a.tier)
+            RESULTS[m["name"]] = {"what": m["what"], "expect": m["expect"], "suite": ("survives" if a.tests and not miss else ("killed" if a.tests else "not run")),
+                                  "checks": {pid: {"exit": r[0], "mechanisms": sorted(set(r[1]))[:5]} for pid, r in res.items()}}
             for pid, (rc, mechs, dt, out) in res.items():
                 line += "  %s:%s(%.0fs)" % (pid, {0: "silent", 1: "FIRED", 2: "inconcl"}.get(rc, rc), dt)
                 if rc != 1 and pid in m["expect"]:
@@ -118,6 +122,9 @@ def main():
         finally:
             drop_tree(d)
     print("missed expectations: %d" % missed)
+    if a.name == "all" and not a.props:
+        with open(os.path.join(HERE, "mutants", "last_run.json"), "w") as f:
+            json.dump(RESULTS, f, indent=1, sort_keys=True)
     return 1 if missed else 0
 
 
